@@ -66,7 +66,7 @@ impl<T: Send + Sync> ConIterOfVec<T> {
         len: usize,
     ) -> impl ExactSizeIterator<Item = T> {
         let vec = &mut *self.vec.get();
-        let end_idx = (begin_idx + len).min(vec.len());
+        let end_idx = begin_idx.saturating_add(len).min(vec.len());
         let len = end_idx - begin_idx;
 
         let ptr = vec.as_mut_ptr().add(begin_idx);
@@ -99,7 +99,12 @@ impl<T: Send + Sync> AtomicIter<T> for ConIterOfVec<T> {
 
     #[inline(always)]
     fn progress_and_get_begin_idx(&self, number_to_fetch: usize) -> Option<usize> {
-        let begin_idx = self.counter().fetch_and_add(number_to_fetch);
+        // only positions which exist are reserved, so that the counter stays bounded and cannot wrap around
+        let remaining = self.initial_len().saturating_sub(self.counter().current());
+        if remaining == 0 {
+            return None;
+        }
+        let begin_idx = self.counter().fetch_and_add(number_to_fetch.min(remaining));
         match begin_idx.cmp(&self.initial_len()) {
             Ordering::Less => Some(begin_idx),
             _ => None,
@@ -118,7 +123,7 @@ impl<T: Send + Sync> AtomicIter<T> for ConIterOfVec<T> {
         let begin_idx = self
             .progress_and_get_begin_idx(n)
             .unwrap_or(self.initial_len());
-        let end_idx = (begin_idx + n).min(self.initial_len()).max(begin_idx);
+        let end_idx = begin_idx.saturating_add(n).min(self.initial_len()).max(begin_idx);
 
         match begin_idx.cmp(&end_idx) {
             Ordering::Equal => None,
